@@ -51,6 +51,19 @@ theorem abort_frm (s : St) (e : Exc) : Frm s (s.abort e) := by
   · exact Frm.refl s
   · exact ⟨rfl, rfl, fun _ => rfl, fun _ h => h⟩
 
+theorem abort_trace (s : St) (e : Exc) : (s.abort e).trace = s.trace := by
+  unfold St.abort; split <;> rfl
+
+theorem abort_stack (s : St) (e : Exc) : (s.abort e).stack = s.stack := by
+  unfold St.abort; split <;> rfl
+
+theorem abort_error (s : St) (e : Exc) : (s.abort e).error.isSome := by
+  unfold St.abort; split <;> simp_all
+
+theorem swallow_fst (p : St × Res) : (swallow p).1 = p.1 := by
+  unfold swallow; repeat' split
+  all_goals rfl
+
 theorem classify_frm (s : St) (r : Res) : Frm s (classify s r) := by
   unfold classify
   split <;> first | exact Frm.refl s | exact abort_frm s _
@@ -92,6 +105,11 @@ theorem runAct_frm {dlv : Dlv} (h : DFrm dlv) (b : Blk) (d : Nat) (s : St) (a : 
     split
     · exact Frm.refl s
     · exact sendEdges_frm h ..
+  | trySend i v =>
+    simp only [runAct]
+    split
+    · exact Frm.refl s
+    · rw [swallow_fst]; exact sendEdges_frm h ..
   | raise => exact Frm.refl s
   | rawEvent x et => exact h ..
 
@@ -190,7 +208,8 @@ theorem deliver_frm (c : Circ) (fuel : Nat) : DFrm (deliver c fuel) := by
     · split
       · exact Frm.refl s
       · split
-        · exact ⟨rfl, rfl, id, fun _ h => h⟩
+        · have h := abort_frm s .circuitError
+          exact ⟨h.active, h.stack, h.error, h.init⟩
         · next b _ _ _ hact =>
           have h1 := eventBody_frm ih b d s.stack { s with active := upd s.active d true } et data rfl
           refine ⟨?_, h1.stack, h1.error, h1.init⟩
@@ -244,6 +263,11 @@ theorem runAct_P (hp : StPred P) (h : DP P dlv) (b : Blk) (d : Nat) (s : St) (a 
     split
     · exact hs
     · exact sendEdges_P h _ _ _ _ hs
+  | trySend i v =>
+    simp only [runAct]
+    split
+    · exact hs
+    · rw [swallow_fst]; exact sendEdges_P h _ _ _ _ hs
   | raise => exact hs
   | rawEvent x et => exact h _ _ _ _ hs
 
@@ -467,6 +491,14 @@ theorem runAct_Q (hf : DFrm dlv) (hq : DQ dlv) (b : Blk) (d : Nat) (stk : List F
     split
     · exact QS.leaf _ _ _ (by simp)
     · exact sendEdges_Q hf hq _ _ _ _ _ hi hs
+  | trySend i v =>
+    simp only [runAct]
+    split
+    · exact QS.leaf _ _ _ (by simp)
+    · intro h
+      unfold swallow at h
+      repeat' split at h
+      all_goals simp_all
   | raise => exact QS.leaf _ _ _ (by simp)
   | rawEvent x et => simp only [runAct]; rw [← hs]; exact hq _ _ _ _ hi
 
@@ -576,6 +608,68 @@ theorem deliver_Q (c : Circ) (fuel : Nat) : DQ (deliver c fuel) := by
                   rw [hr]
                   exact classify_aborts _ _ (by simp) (by simp)
 
+/-! ### a refusal stops the simulation, whatever the handlers on the stack do with the exception -/
+
+/-- if an event was refused by a busy block, `Circuit.error` is set -/
+def RefAbort (s : St) : Prop := (∃ x, TItem.refused x ∈ s.trace) → s.error.isSome
+
+theorem refAbort_stPred : StPred RefAbort := ⟨fun _ _ h => h, fun _ _ h => h⟩
+
+theorem classify_trace (s : St) (r : Res) : (classify s r).trace = s.trace := by
+  unfold classify
+  split <;> first | rfl | exact abort_trace _ _
+
+theorem RefAbort.cons {s : St} (h : RefAbort s) (t : TItem) (ht : ∀ x, t ≠ .refused x)
+    (s' : St) (htr : s'.trace = t :: s.trace) (he : s'.error = s.error) : RefAbort s' := by
+  intro ⟨x, hx⟩
+  rw [htr] at hx
+  rw [he]
+  rcases List.mem_cons.1 hx with hx | hx
+  · exact absurd hx.symm (ht x)
+  · exact h ⟨x, hx⟩
+
+theorem deliver_refAbort (c : Circ) (fuel : Nat) : DP RefAbort (deliver c fuel) := by
+  induction fuel with
+  | zero => intro s d et data h; exact h
+  | succ fuel ih =>
+    intro s d et data hs
+    unfold deliver
+    split
+    · exact hs
+    · split
+      · exact hs
+      · split
+        · exact fun _ => abort_error s _
+        · next b _ _ _ _ =>
+          show RefAbort (eventBody (deliver c fuel) b d s.stack { s with active := upd s.active d true } et data).1
+          have hs1 : RefAbort { s with active := upd s.active d true } := hs
+          generalize ({ s with active := upd s.active d true } : St) = s1 at hs1
+          unfold eventBody
+          simp only []
+          split
+          · exact hs1
+          · have he : RefAbort (earlyInit (deliver c fuel) b d s.stack s1).1 := by
+              unfold earlyInit
+              split
+              · exact initBlock_P (P := RefAbort) refAbort_stPred ih b d _ hs1
+              · exact hs1
+            refine andThen_P he ?_
+            intro he
+            generalize (earlyInit (deliver c fuel) b d s.stack s1).1 = s3 at he
+            unfold callHandler
+            split
+            · exact he
+            · split
+              · exact he
+              · simp only []
+                have h4 := he.cons (.enter d (handlerDepth s.stack d + 1) (data.get? "value")) (by intro x; simp)
+                  { s3 with trace := TItem.enter d (handlerDepth s.stack d + 1) (data.get? "value") :: s3.trace, stack := ⟨d, .handler⟩ :: s.stack } rfl rfl
+                have h5 := fun name => handlerBody_P refAbort_stPred ih b d _ name data h4
+                intro ⟨x, hx⟩
+                rw [classify_trace] at hx
+                apply (classify_frm _ _).error
+                exact (h5 _).cons _ (by intro x; simp) _ rfl rfl ⟨x, hx⟩
+
 /-! ### fuel: the nesting depth of `event()` calls is bounded by the circuit -/
 
 def NoOOF (p : St × Res) : Prop := p.2 ≠ .exc .outOfFuel
@@ -628,6 +722,16 @@ theorem runAct_G (hk : KClosed K) (hf : DFrm dlv) (hg : DG K dlv) (b : Blk) (d :
     split
     · exact NoOOF.leaf _ _ (by simp)
     · exact sendEdges_G hk hf hg _ _ _ _ h
+  | trySend i v =>
+    simp only [runAct]
+    split
+    · exact NoOOF.leaf _ _ (by simp)
+    · next e _ =>
+      have h1 := sendEdges_G hk hf hg d s [e] (match v with | some v => [("value", v)] | Option.none => []) h
+      intro h2
+      unfold swallow at h2
+      repeat' split at h2
+      all_goals simp_all [NoOOF]
   | raise => exact NoOOF.leaf _ _ (by simp)
   | rawEvent x et => exact hg _ _ _ _ h
 
